@@ -123,7 +123,41 @@ def _d(x):
     return "" if x is None else x
 
 
-def write_csv(path, header, rows):
+ID_COLS = {eca.EMIS_ID, eca.SITE_ID, tca.DATE}
+EXTRA_COLS = {
+    "ts": [tca.ACT_LEAKS, tca.NEW_LEAKS, tca.REP_COST, tca.METH_DAILY_DEPLOY_COST.format(method="M_OGI")],
+    "emis": [eca.STATUS, eca.DAYS_ACT, eca.M_RATE, eca.COMP],
+    "est": [eca.SURVEY_LEVEL, eca.METHOD, eca.M_RATE],
+    "rep": [eca.M_RATE, eca.SITE_ID],
+}
+
+
+def write_csv(path, header, rows, kind=None, style=0):
+    """style 0: the columns the summary code reads, integers as written.  style != 0 (derived from
+    the world's format seed and the file name): like the real per-simulation files — numbers as
+    `%.5f`, further columns the summary code does not read, columns in another order"""
+    import random
+    import zlib
+
+    header = list(header)
+    rows = [list(r) for r in rows]
+    if style:
+        rnd = random.Random(zlib.crc32(os.path.basename(str(path)).encode()) ^ style)
+        if rnd.random() < 0.5:
+            for r in rows:
+                for i, c in enumerate(header):
+                    if c not in ID_COLS and isinstance(r[i], int) and not isinstance(r[i], bool):
+                        r[i] = "%.5f" % r[i]
+        for c in EXTRA_COLS.get(kind, []):
+            if c not in header and rnd.random() < 0.5:
+                header.append(c)
+                for r in rows:
+                    r.append(rnd.choice([0, 1, 7, "x", "12.50000"]))
+        if rnd.random() < 0.5:
+            order = list(range(len(header)))
+            rnd.shuffle(order)
+            header = [header[i] for i in order]
+            rows = [[r[i] for i in order] for r in rows]
     with open(path, "w", newline="") as fh:
         w = csv.writer(fh)
         w.writerow(header)
@@ -150,15 +184,16 @@ def write_sim_files(out_dir, world, program, sim):
         os.mkdir(pdir)
     f = world["files"]["%s|%d" % (program, sim)]
     written = []
+    st = world.get("format_seed", 0)
     rows = [["2020-01-%02d" % (i % 28 + 1)] + list(r) for i, r in enumerate(f["ts"])]
-    write_csv(pdir / sim_file_name(program, sim, SUFFIX["ts"]), TS_FILE_COLS, rows)
+    write_csv(pdir / sim_file_name(program, sim, SUFFIX["ts"]), TS_FILE_COLS, rows, "ts", st)
     written.append(("ts", sim_file_name(program, sim, SUFFIX["ts"])))
     rows = [[i, r[0], r[1], r[2], _b(r[3]), r[4], r[5], _d(r[6]), _d(r[7])] for i, r in enumerate(f["emis"])]
-    write_csv(pdir / sim_file_name(program, sim, SUFFIX["emis"]), EMIS_FILE_COLS, rows)
+    write_csv(pdir / sim_file_name(program, sim, SUFFIX["emis"]), EMIS_FILE_COLS, rows, "emis", st)
     written.append(("emis", sim_file_name(program, sim, SUFFIX["emis"])))
     if f.get("est") is not None:
         rows = [[r[0], r[1], _b(r[2]), r[3], r[4], _d(r[5])] for r in f["est"]]
-        write_csv(pdir / sim_file_name(program, sim, SUFFIX["est"]), EST_FILE_COLS, rows)
+        write_csv(pdir / sim_file_name(program, sim, SUFFIX["est"]), EST_FILE_COLS, rows, "est", st)
         written.append(("est", sim_file_name(program, sim, SUFFIX["est"])))
     rep = f.get("rep")
     if rep is not None:
@@ -166,7 +201,7 @@ def write_sim_files(out_dir, world, program, sim):
         if rep == "EMPTY":
             open(pdir / name, "w").close()
         else:
-            write_csv(pdir / name, REP_FILE_COLS, [[r[0], r[1], _d(r[2])] for r in rep])
+            write_csv(pdir / name, REP_FILE_COLS, [[r[0], r[1], _d(r[2])] for r in rep], "rep", st)
         written.append(("rep", name))
     for suf in world.get("extras", {}).get("%s|%d" % (program, sim), []):
         name = sim_file_name(program, sim, suf)
@@ -239,6 +274,46 @@ def read_summary(path):
         return list(csv.DictReader(fh))
 
 
+_SHARED = {}
+
+
+def shared_inputs(world):
+    """the objects handed to SummaryOutputManager: ONE object per distinct value for the whole
+    process (every manager built for an equal configuration gets the same dict / list), together
+    with a pristine deep copy to compare with after the run"""
+    import copy
+    import json
+
+    sw = world.get("summary_files") or {}
+    key = json.dumps([world["programs"], world["econ"], world["years"], sw], sort_keys=True)
+    if key not in _SHARED:
+        programs = {p: {pdc.Program_Params.ECONOMICS: {pdc.Program_Params.GWP: world["econ"][p][0],
+                                                       pdc.Program_Params.NATGAS: world["econ"][p][1]}}
+                    for p in world["programs"]}
+        cfg = output_config(sw.get("cost", True), sw.get("ts", True), sw.get("emis", True))
+        live = (cfg, list(world["years"]), programs)
+        _SHARED[key] = (live, copy.deepcopy(live))
+    return _SHARED[key]
+
+
+def class_state():
+    """module- / class-level containers of the summary code (must not change during a process)"""
+    from constants.file_processing_const import Multi_Sim_Output_Const as M
+    from file_processing.output_processing.summary_output_mapper import SummaryOutputMapper as Mp
+
+    def keys2(d):
+        return {k: sorted(v) if isinstance(v, dict) else repr(v) for k, v in d.items()}
+
+    return {
+        "SUMMARY_MAPPINGS": keys2(Mp.SUMMARY_MAPPINGS), "YEARLY_MAPPINGS": keys2(Mp.YEARLY_MAPPINGS),
+        "OUTPUT_FUNCTIONS_MAP": sorted(SummaryOutputManager.OUTPUT_FUNCTIONS_MAP),
+        "mapper_defaults": repr(Mp.__init__.__defaults__),
+        "patterns": [M.TS_PATTERN.pattern, M.EMIS_PATTERN.pattern, M.EST_PATTERN.pattern, M.EST_REP_PATTERN.pattern,
+                     M.OUTPUTS_NAME_SIM_EXTRACTION_REGEX.pattern, M.OUTPUT_KEEP_STR, M.OUTPUT_KEEP_REGEX.pattern],
+        "ts_columns": list(ofc.TS_SUMMARY_COLUMNS) if hasattr(ofc, "TS_SUMMARY_COLUMNS") else None,
+    }
+
+
 class _NoVis:
     def gen_visualizations(self):
         return None
@@ -296,13 +371,8 @@ def run_world(world, rng, mode="shuffle"):
             os.mkdir(out / "Logs")
             with open(out / Output_Files.PARAMETER_FILE, "w") as fh:
                 fh.write("x: 1\n")
-        programs = {p: {pdc.Program_Params.ECONOMICS: {pdc.Program_Params.GWP: world["econ"][p][0],
-                                                       pdc.Program_Params.NATGAS: world["econ"][p][1]}}
-                    for p in world["programs"]}
-        sw = world.get("summary_files") or {}
-        manager = SummaryOutputManager(
-            out, output_config(sw.get("cost", True), sw.get("ts", True), sw.get("emis", True)),
-            list(world["years"]), programs)
+        (cfg, years, programs), pristine = shared_inputs(world)
+        manager = SummaryOutputManager(out, cfg, years, programs)
 
         def hook(*ev):
             events.append(tuple(ev))
@@ -341,9 +411,10 @@ def run_world(world, rng, mode="shuffle"):
                 try:
                     SM.SimulationManager.run_simulations(stub, not world.get("multiprocessing", False))
                 except Exception as e:
-                    if not (events and events[-1][0] == "gen-crash"):
-                        raise
-                    error = "gen:%s" % type(e).__name__
+                    if events and events[-1][0] == "gen-crash":
+                        error = "gen:%s" % type(e).__name__
+                    else:  # anything else the batch loop raises: reported with the world, not exit 2
+                        error = "run:%s: %s" % (type(e).__name__, str(e)[:200])
                 if error is None:
                     try:
                         SM.SimulationManager.generate_summary_results(stub)
@@ -353,7 +424,9 @@ def run_world(world, rng, mode="shuffle"):
             SM.simulate = saved_sim
         final = snapshot()
         final["cost"] = read_summary(out / (Output_Files.SummaryFileNames.COST_SUMMARY + ".csv"))
-        return {"events": events, "final": final, "error": error,
+        mutated = [name for name, a, b in zip(("output_config", "sim_years", "programs"), (cfg, years, programs), pristine)
+                   if a != b]
+        return {"events": events, "final": final, "error": error, "mutated_inputs": mutated,
                 "batches": list(batch_simulations(world["n"]))}
     finally:
         shutil.rmtree(tmp, ignore_errors=True)
